@@ -97,6 +97,14 @@ pub struct Cfg {
     /// number of epochs the script waits for before the owner raises the duration
     #[serde(default)]
     pub script_epochs: u32,
+    /// idle pools over other denoms registered in the pool factory before the pools under test
+    /// (their registry keys sort first, so the pools under test are not on the factory's first
+    /// listing page): 0, 11 (beyond the default page of 10) or 31 (beyond the maximum page of 30)
+    #[serde(default)]
+    pub filler_pairs: u32,
+    /// the same for the vault factory
+    #[serde(default)]
+    pub filler_vaults: u32,
 }
 
 #[derive(Serialize, Deserialize, Clone, Debug, PartialEq)]
@@ -202,6 +210,13 @@ pub struct Hub {
     pub start_ns: u64,
     pub start_height: u64,
     pub model: Model,
+}
+
+/// denoms of the idle filler pools / vaults: they sort before "uusdc" / "uwhale"
+pub const FILLER_QUOTE: &str = "aab";
+pub fn filler_denom(i: u32) -> String {
+    // letters only: the vault's LP ticker is derived from the denom and must match [a-zA-Z-]{3,12}
+    format!("aaa{}{}", (b'a' + (i / 26) as u8) as char, (b'a' + (i % 26) as u8) as char)
 }
 
 pub fn pair_assets(i: usize) -> [usize; 2] {
@@ -536,6 +551,17 @@ impl Scenario for Hub {
                 genesis_offset_ns = 60_000_000_000;
             }
         }
+        // many registered pools / vaults (drawn last so that older run seeds keep their meaning)
+        let filler_pairs = match rng.below(if prop == "C10" { 24 } else { 60 }) {
+            0 | 1 => 11,
+            2 => 31,
+            _ => 0,
+        };
+        let filler_vaults = match rng.below(if prop == "C10" { 24 } else { 60 }) {
+            0 | 1 => 11,
+            2 => 31,
+            _ => 0,
+        };
         Cfg {
             n_users,
             max_steps,
@@ -557,6 +583,8 @@ impl Scenario for Hub {
             w_set_duration,
             late_bonder_script,
             script_epochs,
+            filler_pairs,
+            filler_vaults,
         }
     }
 
@@ -577,7 +605,16 @@ impl Scenario for Hub {
             v
         };
         let mut bals: Vec<(&str, Vec<Coin>)> = USERS.iter().take(n).map(|u| (*u, rich(0))).collect();
-        bals.push((OWNER, rich(0)));
+        let n_fill = cfg.filler_pairs.max(cfg.filler_vaults);
+        let mut owner_coins = rich(0);
+        if n_fill > 0 {
+            for i in 0..n_fill {
+                owner_coins.push(coin(1_000_000, filler_denom(i)));
+            }
+            owner_coins.push(coin(1_000_000, FILLER_QUOTE));
+            owner_coins.sort_by(|a, b| a.denom.cmp(&b.denom));
+        }
+        bals.push((OWNER, owner_coins));
         let mut app = new_app(&bals);
         let start_ns = now_ns(&app);
         let start_height = height(&app);
@@ -708,6 +745,37 @@ impl Scenario for Hub {
         );
         assert!(r.outcome.is_ok(), "harness: fund borrower: {}", r.outcome.err_text());
 
+        // idle filler pools / vaults over denoms that sort before every asset under test
+        if cfg.filler_pairs > 0 {
+            let mut ds: Vec<String> = (0..cfg.filler_pairs).map(filler_denom).collect();
+            ds.push(FILLER_QUOTE.to_string());
+            for d in &ds {
+                must_exec(&mut app, OWNER, &factory, &factory::ExecuteMsg::AddNativeTokenDecimals { denom: d.clone(), decimals: 6 }, vec![coin(1, d.as_str())]);
+            }
+            for i in 0..cfg.filler_pairs {
+                must_exec(
+                    &mut app,
+                    OWNER,
+                    &factory,
+                    &factory::ExecuteMsg::CreatePair {
+                        asset_infos: [native(&filler_denom(i)), native(FILLER_QUOTE)],
+                        pool_fees: pool_fee(&cfg.pair_fees[0]),
+                        pair_type: PairType::ConstantProduct,
+                        token_factory_lp: false,
+                    },
+                    vec![],
+                );
+            }
+        }
+        for i in 0..cfg.filler_vaults {
+            must_exec(
+                &mut app,
+                OWNER,
+                &vfactory,
+                &vault_factory::ExecuteMsg::CreateVault { asset_info: native(&filler_denom(i)), fees: vault_fee(&cfg.vault_fees[0]), token_factory_lp: false },
+                vec![],
+            );
+        }
         let n_pairs = if cfg.third_pair.is_some() { 3 } else { 2 };
         let mut pairs = vec![];
         for i in 0..n_pairs {
